@@ -418,11 +418,16 @@ class AxiIcHarness(Harness):
                     self.cov["w_first"] += 1
                 aw_done = (issue[4] if issue is not None else 0) or aw_hs
                 w_done = (issue[5] if issue is not None else 0) or w_hs
-                if (aw_hs or w_hs) and not self.has_timeout:
+                if aw_hs or w_hs:
                     seen = any((hs(S, "aw") and aw_hs and v[S["aw"]["addr"]] == mkaddr(t, m, tg)) or
                                (hs(S, "w") and w_hs and v[S["w"]["data"]] == wdata(t, m, tg)) for S in self.S)
                     if not seen:
-                        return env, ("route.lost", f"master {m}: aw/w handshake but no slave accepted the beat"), 0
+                        if not self.has_timeout:
+                            return env, ("route.lost", f"master {m}: aw/w handshake but no slave accepted the beat"), 0
+                        # taken by the time-out responder: only after the request itself was left waiting for the whole time-out
+                        self.cov["min_wait_before_timeout"] = min(self.cov.get("min_wait_before_timeout", 99), wage)
+                        if wage < self.timeout + 1:
+                            return env, ("timeout.premature", f"master {m}: write absorbed by the time-out responder after waiting {wage} cycle(s), timeout_cycles={self.timeout}"), 0
                 if c[0] == "start":
                     tag2 = (tag + 1) % 4
                 if aw_done and w_done:
@@ -480,9 +485,13 @@ class AxiIcHarness(Harness):
                 active = True
                 flags |= WAITBIT << m
                 t, tg = r[0], r[1]
-                if ar_hs and not self.has_timeout:
+                if ar_hs:
                     if not any(hs(S, "ar") and v[S["ar"]["addr"]] == mkaddr(t, m, tg) for S in self.S):
-                        return env, ("route.lost", f"master {m}: ar handshake but no slave accepted it"), 0
+                        if not self.has_timeout:
+                            return env, ("route.lost", f"master {m}: ar handshake but no slave accepted it"), 0
+                        self.cov["min_wait_before_timeout"] = min(self.cov.get("min_wait_before_timeout", 99), rage)
+                        if rage < self.timeout + 1:
+                            return env, ("timeout.premature", f"master {m}: read absorbed by the time-out responder after waiting {rage} cycle(s), timeout_cycles={self.timeout}"), 0
                 if c[0] == "start":
                     tag2 = (tag + 1) % 4
                 if ar_hs:
